@@ -365,6 +365,24 @@ func runC02(c *core.Ctx) {
 			k.goit("add", "huge.bin")
 			c.Count("scale.huge-file-histories")
 		}
+		if w.Hist%12 == 7 {
+			// twin directories: the same relative names beneath both, different blobs, and the blob sets related in the ways
+			// a fingerprint may confuse (every file of a directory with one content; the same contents exchanged between
+			// the names; one directory a copy of the other but for one file); each is a tree of its own in the snapshot
+			x, y := k.content(), append(k.content(), []byte("twin\n")...)
+			for _, f := range [][2]string{{"tw-a/f1", "x"}, {"tw-a/f2", "x"}, {"tw-b/f1", "y"}, {"tw-b/f2", "y"},
+				{"tw-p/m", "x"}, {"tw-p/n", "y"}, {"tw-q/m", "y"}, {"tw-q/n", "x"},
+				{"tw-r/sub/m", "x"}, {"tw-r/sub/n", "x"}, {"tw-s/sub/m", "x"}, {"tw-s/sub/n", "y"}} {
+				if f[1] == "x" {
+					w.Write(f[0], x)
+				} else {
+					w.Write(f[0], y)
+				}
+			}
+			k.goit("add", "tw-a", "tw-b", "tw-p", "tw-q", "tw-r", "tw-s")
+			k.Do("commit")
+			c.Count("C02.twin-directories")
+		}
 		if w.Hist%24 == 11 {
 			k.BoundaryFiles("blk/")
 			k.goit("add", "blk")
